@@ -102,6 +102,11 @@ def _same_branch(fnode, a, b):
     return branch(a) == branch(b)
 
 
+def _LOC_HELPERS(fi):
+    """own synchronous helpers of the translator other than its three steps (a location formatter, ...) are read in place"""
+    return lambda f, ct: f.cls is not None and fi.cls is not None and f.cls.qual in fi.cls.mro and not f.is_async and f.name not in ("translate_hierarchy", "construct", "load_name")
+
+
 def structure_rules(chk):
     prog = chk.program
     fi = prog.method(TRANSLATOR, "translate_hierarchy")
@@ -124,7 +129,7 @@ def structure_rules(chk):
                 return [("value", ("sym", "<value of __type__>"))] if has_type else [("raise", exc_value("ext:builtins.KeyError", "no __type__"))]
             return None
 
-        outs = Interp(prog, fi, decide=decide, sub_hook=type_sub).run()
+        outs = Interp(prog, fi, decide=decide, sub_hook=type_sub, inline=_LOC_HELPERS(fi)).run()
         chk.count(len(outs))
         for o in outs:
             if o.kind != "return":
@@ -132,6 +137,16 @@ def structure_rules(chk):
                 ok1 = False
                 continue
             cons = [e[1] for e in o.path.events if e[0] == "call" and e[1][1] == ("attr", SELF, "construct")]
+            # bottom-up: nothing that can fail for the PARENT (resolving its name, calling its factory) happens before its
+            # children have been translated -- else a fault deeper in the tree is reported at the parent's location,
+            # children below an unresolvable parent are never built, and a name a child registers is not found
+            evs_ = o.path.events
+            first_child = next((i for i, e in enumerate(evs_) if e[0] == "call" and e[1][1] == ("attr", SELF, "translate_hierarchy")), None)
+            early = [e[1] for i, e in enumerate(evs_) if e[0] == "call" and (first_child is None or i < first_child) and e[1][1][0] == "attr" and e[1][1][1] == SELF and e[1][1][2] in ("load_name", "construct")]
+            if early and first_child is not None and ok1:
+                chk.bad("O19.1", name, "%s is called for the mapping BEFORE its children are translated: a failure of the parent's factory name is reported ahead of (and instead of) faults deeper in the tree, whose location is the one the property asks for" % show(strip_sites(early[0])), node=fi.node, stmt="parent-before-children")
+                ok1 = False
+                continue
             if has_type:
                 if len(cons) != 1 or o.value != cons[0]:
                     chk.bad("O19.1", name, "a mapping with __type__ is constructed %d times%s (required: exactly once, and the result returned)" % (len(cons), "" if len(cons) != 1 else " but %s is returned" % show(strip_sites(o.value))), node=fi.node, stmt="construct-count")
@@ -219,7 +234,7 @@ def structure_rules(chk):
                 )
     # ---------------- list branch: O19.2, O19.3
     ok2 = True
-    outs = Interp(prog, fi, decide=kinds_decide("list")).run()
+    outs = Interp(prog, fi, decide=kinds_decide("list"), inline=_LOC_HELPERS(fi)).run()
     chk.count(len(outs))
     for o in outs:
         if o.kind != "return":
